@@ -174,7 +174,7 @@ func H02cat() {
 	t := param("t")
 	s := ""
 	for i := 0; i < t; i++ {
-		tok := h02Pick("a", "b", "\"s\"", "'t'", "+", ";", "{", "}", "\"\"", "pattern")
+		tok := h02Pick("a", "b", "\"s\"", "'t'", "+", ";", "{", "}", "\"\"", "pattern", "\"+\"", "'+'")
 		sep := h02Pick("", " ", "/**/", "\n")
 		s += tok + sep
 	}
